@@ -141,3 +141,23 @@ func probe(tag string, l *wal.WAL, m *model, i uint64) {
 		vrt.Reach("probe-absent")
 	}
 }
+
+// checkSealedIndexes (C09): for every segment the metadata lists as sealed, the file holds an
+// index frame (type 2, length 4 bytes per entry written to the segment) whose offset array
+// starts at the recorded IndexStart.
+func checkSealedIndexes(tag string, fs *sym.FS, meta *sym.Meta) {
+	for _, si := range meta.State.Segments {
+		if si.SealTime.IsZero() {
+			continue
+		}
+		d := fs.Data(segment.FileName(si))
+		ok := si.IndexStart >= 40 && si.IndexStart <= uint64(len(d)) && si.MaxIndex >= si.BaseIndex
+		if ok {
+			h := d[si.IndexStart-8 : si.IndexStart]
+			n := uint32(h[4]) | uint32(h[5])<<8 | uint32(h[6])<<16 | uint32(h[7])<<24
+			// a later tail truncation lowers MaxIndex without rewriting the file: the index may cover more entries
+			ok = h[0] == 2 && n%4 == 0 && uint64(n) >= 4*(si.MaxIndex-si.BaseIndex+1)
+		}
+		vrt.Assert(tag+".sealed-index-start-is-an-index-frame", ok)
+	}
+}
